@@ -42,6 +42,25 @@ C07_CASES = [
     ('well-typed assignment to a member of an array element',
      'struct P\n{\n\tx: i32,\n}\n\nfn main()\n{\n\tvar a: [2]P = [P { x: 1 }, P { x: 2 }];\n\tvar v: i32 = 7;\n\ta[1].x = v;\n}\n', 'accept',
      'assignment of an i32 variable to the i32 member of an array element: a well-typed program is accepted'),
+    ('array view assigned to an array element',
+     'fn foo(s: []i32)\n{\n\tvar a: [4]i32 = [1, 2, 3, 4];\n\ta[0] = s;\n}\n', 'reject',
+     'assignment of an array view []i32 to an element of type i32: an ill-typed program is rejected with an error, not by a failed assertion'),
+    ('array view assigned through a pointer',
+     'fn foo(s: []i32)\n{\n\tvar x: i32 = 1;\n\tvar p: &i32 = &x;\n\t&p = s;\n}\n', 'reject',
+     'assignment of an array view []i32 to a pointer variable: an ill-typed program is rejected with an error, not by a failed assertion'),
+] + [
+    (what, 'word64 Position\n{\n\tx: i32,\n\ty: i32,\n}\n\nstruct Foo\n{\n\thead: &Position,\n\tarr: [4]i32,\n\tpts: [2]Position,\n}\n\nfn main()\n{\n'
+           '\tvar a = Position { x: 1, y: 2 };\n\tvar b = Position { x: 3, y: 4 };\n\tvar foo = Foo { head: &a, arr: [1, 2, 3, 4], pts: [a, b] };\n\t%s\n}\n' % stmt, exp, why)
+    for what, stmt, exp, why in [
+        ('well-typed assignment through a pointer member', 'foo.head = b;', 'accept', 'assignment of a Position to the Position behind the pointer member head'),
+        ('well-typed assignment of a word to an element of an array member', 'foo.pts[1] = b;', 'accept', 'assignment of a Position to an element of a [2]Position member'),
+        ('well-typed assignment to a member of an element of an array member', 'foo.pts[1].x = 7;', 'accept', 'assignment of an integer to the i32 member of an element of a [2]Position member'),
+        ('well-typed assignment of an array to an array member', 'foo.arr = [4, 3, 2, 1];', 'accept', 'assignment of an array literal to a [4]i32 member'),
+        ('boolean assigned to an element of an integer array member', 'foo.arr[1] = true;', 'reject:504', 'assignment of a bool to an element of a [4]i32 member'),
+        ('integer assigned to an element of an array-of-words member', 'foo.pts[1] = 5;', 'reject:504', 'assignment of an integer to an element of a [2]Position member'),
+        ('word assigned to an element of an integer array member', 'foo.arr[1] = b;', 'reject:504', 'assignment of a Position to an element of a [4]i32 member'),
+        ('integer assigned through a pointer-to-word member', 'foo.head = 5;', 'reject', 'assignment of an integer to the Position behind the pointer member head'),
+    ]
 ]
 
 C11_CASES = [
